@@ -10,6 +10,9 @@ import (
 var HCLInserts = []string{
 	"(", ")", "[", "]", "{", "}", "\"", "${", "%{", "~}", "${~", "%{~", "$${", "%%{", "$", "%", "~",
 	"<<EOT\n", "EOT\n", "<<-EOT\n", "<<", "EOT", "\nEOT\n",
+	// heredoc closing lines with every kind of blank after the marker, and whole heredocs
+	"EOT\u00a0\n", "EOT\f\n", "EOT \t\n", "\nEOT\u3000\n", "EOT\v\r\n", "\f", "\v", "\u0085",
+	"a = <<EOT\nx\nEOT\u00a0\nb = 1\n", "a = <<-EOT\n  x\n  EOT\f\nb = 1\n", "a = <<EOT\r\nx\r\nEOT\u3000\r\n",
 	"for", "in", "if", "else", "endif", "endfor", "null", "true", "false", " for ", " in ", " if ",
 	"+", "-", "*", "/", "%", "==", "!=", "<", ">", "<=", ">=", "&&", "||", "!", "?", ":", "=>", "...", "::", ".", ".*", "[*]", "=", ",",
 	"\n", "\r\n", "\r", "\t", " ", "\n\n",
